@@ -54,7 +54,9 @@ type scheduler struct {
 	sideVals    map[*value]value // atomic.Value / atomic.Pointer contents
 	nextHid     int
 	preemptAtSync bool
-	done        chan pathEnd
+	quiescing   map[*gstate]bool
+	preemptCap  *int
+	done       chan pathEnd
 	finished    bool
 	schedule    []int
 }
@@ -128,7 +130,11 @@ func (s *scheduler) schedPoint(fr *frame, why string) {
 		}
 	}
 	next := cur
-	if s.preemptions < s.i.ex.cfg.Preemptions {
+	bound := s.i.ex.cfg.Preemptions
+	if s.preemptCap != nil && *s.preemptCap < bound {
+		bound = *s.preemptCap
+	}
+	if s.preemptions < bound {
 		if r := s.runnable(true); len(r) > 1 {
 			next = r[s.i.choose(len(r), DSched, why)]
 		}
